@@ -152,9 +152,9 @@ impl Dist {
 				}
 				ordered_kvs.push((n, prob, prob_f64));
 			}
-			ordered_kvs.sort_unstable_by(|(a, _, _), (b, _, _)| {
-				a.compare(b, &Never).unwrap().unwrap_or(Ordering::Equal)
-			});
+			// `compare` leaves complex outcomes unordered, which is not a total order
+			// (`sort_unstable_by` may panic on those)
+			ordered_kvs.sort_unstable_by(|(a, _, _), (b, _, _)| a.total_cmp(b, &Never).unwrap());
 			if ctx.output_mode == crate::OutputMode::SimpleText {
 				write!(out, "{{ ")?;
 			}
